@@ -101,6 +101,38 @@ def large_regime(cfg, seed=0, scale=10.0):
     return fails
 
 
+def tied_regime(cfg):
+    """Parameters that are symmetric under permutations of the visible units: several basis states share the LARGEST
+    Boltzmann weight exactly (a sum over the basis must count every one of them)."""
+    nv, nh = cfg["nv"], cfg["nh"]
+    if nv < 2 or nh < 2:
+        return []
+    st = C.make_state(cfg["kind"], nv, nh)
+    # symmetric under exchanging sites 0 and 1 together with hidden units 0 and 1; the two states with exactly one of
+    # the two sites up share the largest weight
+    W = torch.full((nh, nv), 0.1, dtype=torch.double)
+    W[:, 0] = 0.3
+    W[:, 1] = 0.3
+    W[0, 0], W[0, 1], W[1, 0], W[1, 1] = 6.0, -6.0, -6.0, 6.0
+    b = torch.full((nv,), -8.0, dtype=torch.double)
+    b[0] = b[1] = -1.0
+    with torch.no_grad():
+        st.rbm_am.weights.copy_(W)
+        st.rbm_am.hidden_bias.fill_(0.25)
+        st.rbm_am.visible_bias.copy_(b)
+    space = st.generate_hilbert_space(nv)
+    prob = st.probability(space).numpy()
+    Z = float(st.normalization(space))
+    fails = []
+    if abs(Z - prob.sum()) > 1e-9 * prob.sum():
+        fails.append(("tied largest weights: normalization != sum of probabilities over the basis", (Z, float(prob.sum()))))
+    perm = torch.randperm(2 ** nv, generator=torch.Generator().manual_seed(3))
+    Z2 = float(st.normalization(space[perm]))
+    if abs(Z2 - prob.sum()) > 1e-9 * prob.sum():
+        fails.append(("normalization depends on the order of the basis rows", (Z2, float(prob.sum()))))
+    return fails
+
+
 def bounded(tier, seed):
     n = 0
     bad = []
@@ -112,6 +144,10 @@ def bounded(tier, seed):
                 n += 1
                 if f:
                     bad.append(({"kind": kind, "nv": nv, "nh": nh, "seed": s, "scale": scale}, f[:2]))
+            f = tied_regime({"kind": kind, "nv": nv, "nh": nh})
+            n += 1
+            if f:
+                bad.append(({"kind": kind, "nv": nv, "nh": nh, "regime": "permutation-symmetric parameters (tied largest weights)"}, f[:2]))
             for s in (seed, seed + 7):
                 f = large_regime({"kind": kind, "nv": nv, "nh": nh}, s)
                 n += 1
